@@ -15,7 +15,7 @@ for k in (1, 2, 3):
         print('NOT CONFIRMED', prop, k); continue
     sect = log.split('== %s/%d check' % (prop, k))[1].split('== %s/%d rc=' % (prop, k))
     rc = sect[1].strip().split()[0]
-    keys = sorted(set(re.findall(r'\[([^\]]+/[A-Za-z:]+)\]\s*$', sect[0], re.M)))
+    keys = sorted({ln[ln.rindex(' [') + 2:].rstrip()[:-1] for ln in sect[0].split('\n') if ln.startswith('  what:') and ln.rstrip().endswith(']') and ' [' in ln})
     dst = '/verif/seeded/R%s-%s-%d' % (RND, prop, k)
     os.makedirs(dst, exist_ok=True)
     for f in ('patch.diff', 'demo.py'):
